@@ -68,6 +68,13 @@ func C11(t *testing.T, ch *choice.Source, opt harness.Options, env *Env) harness
 	if c.Spec.Timing {
 		c.Spec.Permute = ch.Bool(1, 2, "permute")
 	}
+	var mini *MiniKnobs
+	if c.Spec.Timing && !c.Spec.MagicCopy && ch.Bool(1, 2, "mini") {
+		// reduced platform: few DRAM banks make a cache flush slow, drawn copy start-up delays move the
+		// copy requests relative to the flush they follow
+		mini = &MiniKnobs{NumSA: 1 + ch.Intn(2, "sa"), NumCUPerSA: 1 + ch.Intn(2, "cu"), L2KB: 64 << ch.Intn(4, "l2"), MemBanks: 1 << ch.Intn(4, "banks"),
+			H2DCycles: 1 + ch.Intn(600, "h2dcycles"), D2HCycles: 1 + ch.Intn(400, "d2hcycles")}
+	}
 	// C05 mode: the same workload under a host schedule chosen by the parent;
 	// the event order is the faithful one (simulated time is an observable)
 	c05 := env.Params["c05.sched"] != ""
@@ -93,9 +100,17 @@ func C11(t *testing.T, ch *choice.Source, opt harness.Options, env *Env) harness
 		// a long-running kernel on one GPU while copies go to the other
 		c.Buffers[len(c.Buffers)-1].Pages = 8 + ch.Intn(9, "bigpages")
 		c.BigKernels = true
+	} else if mini != nil && ch.Bool(1, 3, "bigdirty") {
+		// a kernel that leaves many dirty cache lines, so that the flush before the next copy takes long
+		c.Buffers[len(c.Buffers)-1].Pages = 16 + ch.Intn(33, "bigdirtypages")
+		c.BigKernels = true
 	}
 	const pageSize = 4096
 	cfgDigest := digestString(fmt.Sprintf("%+v", c))
+	if mini != nil {
+		cfgDigest = digestString(fmt.Sprintf("%+v|%+v", c, *mini))
+		c.Spec.Mini = mini // (set after the digest: a pointer must not enter it)
+	}
 
 	probes := map[string]uint64{}
 	if c.Spec.Timing && !c.Spec.MagicCopy {
@@ -143,7 +158,18 @@ func C11(t *testing.T, ch *choice.Source, opt harness.Options, env *Env) harness
 			length = 1 + ch.Intn(size, "len.long")
 		}
 		off := ch.Intn(size, "off")
-		if size > pageSize && ch.Bool(1, 2, "straddle") {
+		afterKernel := false
+		if c.BigKernels && len(ops) > 0 && ops[len(ops)-1].Kind == 2 && !ops[len(ops)-1].Async && ch.Bool(2, 3, "h2d-into-kernel-output") {
+			// a host-to-device copy into the tail of what the previous kernel just wrote
+			prev := ops[len(ops)-1]
+			o.Buf, o.Kind = prev.Buf, 0
+			size = c.Buffers[o.Buf].Pages * pageSize
+			length = 1 + ch.Intn(300, "len.tail")
+			back := 1 + ch.Intn(min(prev.Len, 16384), "tailback")
+			off = prev.KDst + prev.Len - back
+			afterKernel = true
+		}
+		if !afterKernel && size > pageSize && ch.Bool(1, 2, "straddle") {
 			boundary := pageSize * (1 + ch.Intn(size/pageSize-1, "boundary"))
 			off = boundary - 1 - ch.Intn(min(length, 200), "before")
 			if off < 0 {
@@ -154,6 +180,9 @@ func C11(t *testing.T, ch *choice.Source, opt harness.Options, env *Env) harness
 			length = size - off
 		}
 		o.Queued = ch.Bool(1, 2, "queued")
+		if afterKernel {
+			o.Queued = false
+		}
 		switch o.Kind {
 		case 0:
 			o.EType = ch.Intn(4, "etype")
@@ -190,8 +219,12 @@ func C11(t *testing.T, ch *choice.Source, opt harness.Options, env *Env) harness
 		ops = append(ops, o)
 	}
 	everKernel := false
+	var stale *staleMon
 
 	apps := func(p *Platform) []App {
+		if c.Spec.Timing {
+			stale = attachStaleMon(p)
+		}
 		return []App{{Name: "app0", Run: func(p *Platform) {
 			d := p.Driver
 			ctx := d.Init()
@@ -403,6 +436,11 @@ func C11(t *testing.T, ch *choice.Source, opt harness.Options, env *Env) harness
 			// the direct-storage copy path on a timing platform bypasses the
 			// write-back caches (see known findings)
 			res.Signature += "/timing-direct-storage-path-after-kernel"
+		} else if stale != nil && stale.StaleHits > 0 && everKernel {
+			// a copy kernel read a line from a first-level cache that another CU's kernel had rewritten
+			// (see known findings): named by observation on the caches' ports
+			res.Signature = "data-differs/" + staleL1Cause
+			res.Detail += fmt.Sprintf("; %d stale first-level-cache reads, first: %s", stale.StaleHits, stale.Example)
 		}
 	}
 	if res.Failed() {
